@@ -80,16 +80,19 @@ Definition as_pkmap (x : sx) : option pkmap :=
 Definition entity_has_honest_sig (t : list triple) (pkm : pkmap) (sigmap : obj) (msg : str) (e : str) : bool :=
   match lookup e sigmap, lookup e pkm with
   | Some (JObj set), Some pks =>
-      existsb (fun kv =>
-                 supported_key_id (fst kv) &&
-                 match snd kv, lookup (fst kv) pks with
-                 | JStr s, Some pk =>
-                     match b64_decode false s with
-                     | Some raw => table_verify t pk msg raw
-                     | None => false
-                     end
-                 | _, _ => false
-                 end) set
+      let honest (kv : str * json) :=
+        match snd kv, lookup (fst kv) pks with
+        | JStr s, Some pk =>
+            match b64_decode false s with
+            | Some raw => table_verify t pk msg raw
+            | None => false
+            end
+        | _, _ => false
+        end in
+      (* at least one supported signature, and EVERY supported signature of the entity is honest (a bad
+         second signature next to a good first one must not pass: seed4 C02-2) *)
+      existsb (fun kv => supported_key_id (fst kv) && honest kv) set
+      && forallb (fun kv => negb (supported_key_id (fst kv)) || honest kv) set
   | _, _ => false
   end.
 
